@@ -188,8 +188,12 @@ func C15(t Tier) int {
 								expectOK = false
 							}
 						case 6: // explicit transactions of A whose LAST message acts on something A no longer owns: the whole transaction fails
-							if len(cur) != 1 || bn != "handed-over" {
+							if len(cur) > 2 || (len(cur) == 2 && cur[0] != 0) || bn != "handed-over" {
 								continue
+							}
+							exIdx := cur[0] // explicit transactions are indexed by the one- and (0,x) two-entry sequences
+							if len(cur) == 2 {
+								exIdx = len(menu) + cur[1]
 							}
 							ex := []struct {
 								name string
@@ -205,19 +209,24 @@ func C15(t Tier) int {
 								{"create-topic-then-update-did-then-deactivate-over-the-stale-sequence", []sdk.Msg{aoltypes.NewMsgCreateTopic("y15", "", e.A.Bech),
 									&didtypes.MsgUpdateDIDRequest{Did: e.Did, Document: k.doc("D5", e.Did), VerificationMethodId: k.vmID(e.Did, 1), Signature: k.sign(k.doc("D5", e.Did), 0, 1), FromAddress: e.A.Bech},
 									&didtypes.MsgDeactivateDIDRequest{Did: e.Did, VerificationMethodId: k.vmID(e.Did, 1), Signature: k.sign(&didtypes.DIDDocument{Id: e.Did}, 0, 1), FromAddress: e.A.Bech}}},
+								// key1 is demoted to a plain verification method by the first update (shape D2: authentication = key2 only);
+								// the second update is proven with key1 over the right sequence: it must fail, and with it the whole transaction
+								{"create-topic-then-demote-key1-then-update-proven-with-demoted-key1", []sdk.Msg{aoltypes.NewMsgCreateTopic("w15", "", e.A.Bech),
+									&didtypes.MsgUpdateDIDRequest{Did: e.Did, Document: k.doc("D2", e.Did), VerificationMethodId: k.vmID(e.Did, 1), Signature: k.sign(k.doc("D2", e.Did), 0, 1), FromAddress: e.A.Bech},
+									&didtypes.MsgUpdateDIDRequest{Did: e.Did, Document: k.doc("D5", e.Did), VerificationMethodId: k.vmID(e.Did, 1), Signature: k.sign(k.doc("D5", e.Did), 1, 1), FromAddress: e.A.Bech}}},
 								{"create-topic-then-the-same-did-update-twice", []sdk.Msg{aoltypes.NewMsgCreateTopic("z15", "", e.A.Bech),
 									&didtypes.MsgUpdateDIDRequest{Did: e.Did, Document: k.doc("D5", e.Did), VerificationMethodId: k.vmID(e.Did, 1), Signature: k.sign(k.doc("D5", e.Did), 0, 1), FromAddress: e.A.Bech},
 									&didtypes.MsgUpdateDIDRequest{Did: e.Did, Document: k.doc("D5", e.Did), VerificationMethodId: k.vmID(e.Did, 1), Signature: k.sign(k.doc("D5", e.Did), 0, 1), FromAddress: e.A.Bech}}},
 							}
-							if len(ex) > len(menu) {
-								panic("c15: more explicit transactions than menu entries to index them")
+							if len(ex) > 2*len(menu) {
+								panic("c15: more explicit transactions than sequences to index them")
 							}
-							if cur[0] >= len(ex) {
+							if exIdx >= len(ex) {
 								continue
 							}
-							msgs = append(msgs, ex[cur[0]].msgs...)
-							for range ex[cur[0]].msgs {
-								names = append(names, ex[cur[0]].name)
+							msgs = append(msgs, ex[exIdx].msgs...)
+							for range ex[exIdx].msgs {
+								names = append(names, ex[exIdx].name)
 							}
 							addSigner(e.A)
 							expectOK = false
